@@ -162,7 +162,7 @@ theorem removeClass_eq (cfg : Cfg) (sp : Char → Bool) (a : Attrs) (cls : Str) 
     removeClass cfg sp a cls =
       if cls = [] ∨ textOf classKey a = [] then .ok a
       else if keptTokens sp a cls ≠ [] then
-        .ok (dictSet classKey (.plain (joinStr [' '] (keptTokens sp a cls))) a)
+        .ok (dictSet classKey (rejoinVal a (joinStr [' '] (keptTokens sp a cls))) a)
       else dictPop classKey a := by
   unfold removeClass keptTokens
   by_cases h1 : cls = []
@@ -173,10 +173,29 @@ theorem removeClass_eq (cfg : Cfg) (sp : Char → Bool) (a : Attrs) (cls : Str) 
       split
       · rename_i hne
         rw [attrsUpdate_single, attrsSetItem]
-        simp only [normAttrValue, normAttrName_classKey]
+        have hn : ∀ s, normAttrValue (rejoinArg a s) = .ok (some (rejoinVal a s)) := by
+          intro s
+          unfold rejoinArg rejoinVal
+          cases alookup classKey a with
+          | none => rfl
+          | some v => cases v <;> rfl
+        simp only [hn, normAttrName_classKey]
         rw [if_pos (by simpa using hne)]
       · rename_i hne
         rw [if_neg (by simpa using hne)]
+
+theorem rejoinVal_str (a : Attrs) (s : Str) : (rejoinVal a s).str = s := by
+  unfold rejoinVal
+  cases alookup classKey a with
+  | none => rfl
+  | some v => cases v <;> rfl
+
+theorem rejoinVal_isHtml (a : Attrs) (s : Str) :
+    (rejoinVal a s).isHtml = match alookup classKey a with | some v => v.isHtml | none => false := by
+  unfold rejoinVal
+  cases alookup classKey a with
+  | none => rfl
+  | some v => cases v <;> rfl
 
 /-! ### css -/
 
